@@ -6,6 +6,7 @@
     smat <pathhex>                       Nodes.source_map(full_path)                      → ok l,c,el,ec | <error>
     quoteat <pathhex>                    quotation ErrorRender prints for the node        → ok <hex of "\n".join(lines)> | ok [] | <error>
     quote <l,c,el,ec>                    the same for an explicit source map (N = None)
+    quoteraw <l,c,el,ec>                 Quotation(filepath, span − 1).build() directly (no exists/no-position guard)
     hull <span;span;…>                   span = bl,bc,el,ec ; hull of a token run          → ok bl,bc,el,ec | none
     chain <span;span;…>                  ordered and non-overlapping?                      → true | false
     collect <steps> <span;span;…>        ErrorCollector._quotation_lines on the current file content (0-based token spans)
@@ -68,6 +69,10 @@ def step (st : St) : List String → St × String
   | ["quote", sm] =>
     match (sm.splitOn ",").mapM Entry.parsePos with
     | some [a, b, c, d] => (st, showLines (buildQuotation st.fileExists st.filepath st.content (.ok ⟨a, b, c, d⟩)))
+    | _ => (st, "bad-op")
+  | ["quoteraw", sm] =>
+    match (sm.splitOn ",").mapM Entry.parsePos with
+    | some [a, b, c, d] => (st, showLines ((shift ⟨a, b, c, d⟩).bind (quotationBuild st.filepath st.content)))
     | _ => (st, "bad-op")
   | ["hull", spans] =>
     match parseSpans spans with
